@@ -90,6 +90,16 @@ def run(ctx):
         wn = [midinotes.onoff_of_notes(t) for t in want] + [([], []) for _ in range(len(dn) - len(want))]
         if dn != wn:
             ctx.oracle_fail("sounded notes differ from the documented semantics", src, str(dn)[:600], str(wn)[:600], input_text=src)
+    # model-internal consistency behind C03_exec (tested, not proved): the model lexer on the printed tree yields
+    # exactly TLineNo 0 :: NoteSimDefs.tokens_of tree, for every generated tree inside wf_prog / lexable_prog
+    lvt = ctx.model(["lex_vs_tokens\t%s" % p[0] for p in progs])
+    for (a, src, want), r in zip(progs, lvt):
+        if r.startswith("OK"):
+            ctx.dist["lex_vs_tokens_ok"] = ctx.dist.get("lex_vs_tokens_ok", 0) + 1
+        elif r.startswith("SKIP"):
+            ctx.dist["lex_vs_tokens_skipped_" + r[5:]] = ctx.dist.get("lex_vs_tokens_skipped_" + r[5:], 0) + 1
+        else:
+            ctx.disagree("lex(pprog p) vs tokens_of p", src, r[:300], "OK")
     # free-form programs: correspondence only (the model answers UNSUPPORTED outside its fragment)
     srcs = [mmlgen.core_program(rng, feats={"tie": False}) for _ in range(n)]
     lines = ["compile_lex\t%s" % vlib.enc_text(s) for s in srcs]
